@@ -181,7 +181,7 @@ class TokEnv(Environment):
     """Environment.analyze_tags[_async] load the source through the loader and hand it to
     analyze_tags_from_string; returning the text there makes the loaded bytes observable."""
 
-    def analyze_tags_from_string(self, source, name="<string>", *, inner_tags=None):
+    def analyze_tags_from_string(self, source, *args, **kwargs):
         return source
 
 
